@@ -3,6 +3,7 @@ import ScrapliProps.C01Interact
 import ScrapliProps.C01Platform
 import ScrapliProps.C01Driver
 import ScrapliProps.C01PlatformXR
+import ScrapliProps.C01PlatformEOS
 /-
   C01 — a command's response is exactly what the device printed for that command.
   Property theorems only (helper lemmas and the definitions `Quiet`, `NoEarly`, `PromptOK`,
@@ -546,6 +547,22 @@ theorem iosxr_session_exact (cfg : Cfg) (out : Bytes → Bytes) {p t : Bytes} (h
       w'.writes = w.writes ++ (inputs.map (fun i => [i, cfg.ret])).flatten ∧
       (∀ x ∈ w'.avail, isHws x = true) ∧ w'.held = [] :=
   session_exact (iosxr_fits cfg out hp ht hS hstrict hret hwin) stripPrompt inputs hg w hw hheld
+
+/-- **and for the Arista EOS class pattern** (host class with parentheses and blanks, `\s?` after the terminator):
+    every exec / privilege-exec / configuration prompt the pattern admits (`eos_fits`), `eosP` compared with CPython
+    on every run -/
+theorem eos_session_exact (cfg : Cfg) (out : Bytes → Bytes) {p t : Bytes} (hp : EosPrompt p) (ht : t = [] ∨ t = [32])
+    (hS : ∀ x, cfg.prompt.search x = (splitNL x).any eosP)
+    (hstrict : cfg.rough = false) (hret : IsRet cfg.ret) (hwin : (p ++ t).length < cfg.depth)
+    (stripPrompt : Bool) (inputs : List Bytes)
+    (hg : ∀ i ∈ inputs, GoodCmd eosP { out := out, prompt := p, trail := t } i)
+    (w : Wire) (hw : ∀ x ∈ w.avail, isHws x = true) (hheld : w.held = []) :
+    ∃ rs w', runCmds cfg (LineDev.onWrite { out := out, prompt := p, trail := t }) stripPrompt inputs (w, []) =
+        some (rs, (w', [])) ∧
+      rs.map (·.2) = inputs.map (expected cfg { out := out, prompt := p, trail := t } stripPrompt) ∧
+      w'.writes = w.writes ++ (inputs.map (fun i => [i, cfg.ret])).flatten ∧
+      (∀ x ∈ w'.avail, isHws x = true) ∧ w'.held = [] :=
+  session_exact (eos_fits cfg out hp ht hS hstrict hret hwin) stripPrompt inputs hg w hw hheld
 
 /-- the defaults regenerated from the source lie inside the scope of the session theorems
     (return character `\n`, strict input matching, a positive search depth) -/
